@@ -18,9 +18,9 @@ theorem C02_reopen_preserves_data (st : MState) :
     ∀ s ∈ st.segs, ∃ s' ∈ st.reopenClean.segs, s'.id = s.id ∧ s'.seq = s.seq ∧ s'.data = s.data := by
   refine ⟨by rw [reopenClean_eq, swap_idx]; rfl, by rw [reopenClean_eq, swap_seed]; rfl, ?_⟩
   intro s hs
-  refine ⟨unfullEmpty s, ?_, by simp, by simp, by simp⟩
+  refine ⟨s, ?_, rfl, rfl, rfl⟩
   rw [reopenClean_eq]
-  exact swap_mem _ _ (List.mem_map_of_mem hs)
+  exact swap_mem _ _ hs
 
 /- ORIGINAL STATEMENT (FALSE as written):
 
@@ -51,7 +51,20 @@ theorem C02_reopen_preserves_reads_partial (st : MState) (_hids : (st.segs.map (
 whenever some segment is not full (the usual case: the active segment). -/
 theorem C02_reopen_idempotent (st : MState) (h : ∃ s ∈ st.segs, s.full = false ∧ s.data ≠ []) :
     st.reopenClean.reopenClean = st.reopenClean := by
-  exact reopenClean_idem st h
+  obtain ⟨s, hs, hf, _⟩ := h
+  exact reopenClean_idem st ⟨s, hs, hf⟩
+
+/-- Since fix F13 (an empty segment keeps `Full` across a clean restart) the hypothesis of
+`C02_reopen_idempotent` is not needed: the reopen leaves every segment as it is, and when none is
+writable the fresh segment it appends is found again by the second reopen. -/
+theorem C02_reopen_idempotent' (st : MState) : st.reopenClean.reopenClean = st.reopenClean :=
+  reopenClean_idem' st
+
+/-- Since fix F13 every existing segment survives a clean reopen unchanged, flag included. -/
+theorem C02_reopen_preserves_segs (st : MState) : ∀ s ∈ st.segs, s ∈ st.reopenClean.segs := by
+  intro s hs
+  rw [reopenClean_eq]
+  exact swap_mem _ _ hs
 
 /-! ### C15 -/
 
